@@ -198,7 +198,7 @@ Proof.
     match goal with |- context [parse_exp ?t] => change (parse_exp t) with (parse_exp (tail ++ spaces k)) end.
     rewrite Hpt. rewrite num_of_chars by assumption. rewrite chars_length, skipn_length.
     split; [|split; [exact Hblank|]].
-    + do 2 f_equal. fold p. unfold ex'. clearbody p b. lia.
+    + do 3 f_equal. fold p. unfold ex'. clearbody p b. lia.
     + destruct (firstn b ds) as [|d0 l0] eqn:Hf0.
       * simpl. eauto.
       * simpl. exists (digit_char d0). eexists. split; [reflexivity|left].
@@ -207,19 +207,119 @@ Proof.
         unfold lt10 in Hl. rewrite Forall_forall in Hl. auto.
   - (* no point: all digits before it, exponent not zero *)
     apply orb_false_iff in Edot. destruct Edot as [E1 E2].
-    apply Nat.ltb_ge in E1. assert (b = p) by lia.
-    unfold body. fold tail.
-    replace (firstn b ds) with ds by (subst b; symmetry; apply firstn_all2; fold p; lia).
+    apply Nat.ltb_ge in E1. assert (Hbp' : b = p) by lia.
+    unfold tail in Hpt. rewrite E2 in Hpt. cbn [negb] in Hpt. cbv iota in Hpt.
+    unfold body. rewrite E2. cbn [negb]. cbv iota.
+    replace (firstn b ds) with ds by (rewrite Hbp'; symmetry; apply firstn_all2; fold p; lia).
     rewrite <- app_assoc. cbn [app].
-    rewrite span_digits_chars by auto.
-    assert (Htl : exists c r, tail ++ spaces k = c :: r /\ Ascii.eqb c "."%char = false).
-    { unfold tail. rewrite E2. simpl. eauto. }
-    destruct Htl as (c & r & Htl & Hcd). rewrite Htl, Hcd. rewrite <- Htl.
+    assert (Htl : exists c r, exp_text ex' ++ spaces k = c :: r /\ Ascii.eqb c "."%char = false /\ is_digit c = false).
+    { unfold exp_text. cbn [app]. eexists. eexists. split; [reflexivity|]. split; reflexivity. }
+    destruct Htl as (c & r & Htl & Hcd & Hnd).
+    rewrite span_digits_chars by (auto; rewrite Htl; exact Hnd).
+    rewrite Htl, Hcd. rewrite <- Htl.
     rewrite app_nil_r. destruct (chars ds) eqn:Hc; [congruence|]. rewrite <- Hc.
-    match goal with |- context [parse_exp ?t] => change (parse_exp t) with (parse_exp (tail ++ spaces k)) end.
     rewrite Hpt. rewrite num_of_chars by assumption.
     split; [|split; [exact Hblank|]].
-    + do 2 f_equal. cbn [length]. fold p. unfold ex'. clearbody p b. lia.
-    + destruct ds as [|d0 l0]; [congruence|]. simpl. exists (digit_char d0). eexists. split; [reflexivity|left].
+    + do 3 f_equal. cbn [length]. fold p. unfold ex'. clearbody p b. lia.
+    + destruct ds as [|d0 l0]; [congruence|]. cbn [chars map app]. exists (digit_char d0). eexists. split; [reflexivity|left].
       apply digit_char_is_digit. inversion Hl; assumption.
 Qed.
+
+Lemma parse_sign_body : forall c r, (is_digit c = true \/ c = "."%char) -> parse_sign (c :: r) = (false, c :: r).
+Proof. intros c r [H| ->]; [apply parse_sign_digit; exact H|reflexivity]. Qed.
+
+(* eng_value: for every sign, digit string, exponent and precision p = length ds >= 1 the text that
+   print_value produces parses, by the loaders' number grammar, to exactly
+   (-1)^neg * digits * 10^(ex - p + 1); what follows the number is blank padding only. *)
+Lemma eng_value_lemma : forall (plus pad neg : bool) (ds : list nat) (ex : Z),
+  ds <> [] -> lt10 ds -> -990 <= ex <= 990 ->
+  exists rest,
+    parse_decimal (print_value plus pad neg ds ex) =
+      Some ({| d_neg := neg; d_mant := digits_value ds; d_exp10 := ex - Z.of_nat (length ds) + 1 |}, rest)
+    /\ all_blank rest = true.
+Proof.
+  intros plus pad neg ds ex Hne Hl Hex.
+  set (core := print_core plus pad neg ds ex).
+  set (k := if pad then (length ds + 5 + (if plus then 1 else 0) - length core)%nat else 0%nat).
+  assert (Hpv : print_value plus pad neg ds ex = core ++ spaces k).
+  { unfold print_value, k. fold core. destruct pad; [reflexivity|]. cbn [spaces repeat]. now rewrite app_nil_r. }
+  rewrite Hpv. unfold core, print_core.
+  destruct (parse_body pad ds ex k Hne Hl Hex) as (rest & Hparse & Hblank & (c & r & Hbody & Hc)).
+  exists rest. split; [|exact Hblank].
+  match type of Hbody with ?B = _ => set (body := B) in * end.
+  unfold parse_decimal.
+  destruct (plus || neg) eqn:Esign.
+  - (* a sign character is printed *)
+    rewrite <- app_assoc. cbn [app]. destruct neg.
+    + unfold parse_sign. change (Ascii.eqb "-" "-") with true. cbv iota.
+      destruct (span_digits (body ++ spaces k)) as [ip r1] eqn:Hs.
+      assert (Hfin : forall (fp r2 : text),
+        match ip ++ fp with
+        | [] => None
+        | m => let (e, r3) := parse_exp r2 in
+               Some ({| d_neg := false; d_mant := num_of m; d_exp10 := e - Z.of_nat (length fp) |}, r3)
+        end = Some ({| d_neg := false; d_mant := digits_value ds; d_exp10 := ex - Z.of_nat (length ds) + 1 |}, rest) ->
+        match ip ++ fp with
+        | [] => None
+        | m => let (e, r3) := parse_exp r2 in
+               Some ({| d_neg := true; d_mant := num_of m; d_exp10 := e - Z.of_nat (length fp) |}, r3)
+        end = Some ({| d_neg := true; d_mant := digits_value ds; d_exp10 := ex - Z.of_nat (length ds) + 1 |}, rest)).
+      { intros fp r2 H. destruct (ip ++ fp); [discriminate H|].
+        destruct (parse_exp r2) as [e r3]. inversion H; subst. reflexivity. }
+      destruct r1 as [|c0 r0].
+      * apply Hfin. exact Hparse.
+      * destruct (Ascii.eqb c0 "."%char).
+        -- destruct (span_digits r0) as [fp r2]. apply Hfin. exact Hparse.
+        -- apply Hfin. exact Hparse.
+    + unfold parse_sign. change (Ascii.eqb "+" "-") with false. change (Ascii.eqb "+" "+") with true. cbv iota.
+      exact Hparse.
+  - (* no sign character: the value is not negative and the text starts with a digit or the point *)
+    apply orb_false_iff in Esign. destruct Esign as [_ ->]. cbn [app].
+    rewrite Hbody. cbn [app]. rewrite parse_sign_body by exact Hc.
+    rewrite Hbody in Hparse. cbn [app] in Hparse. exact Hparse.
+Qed.
+
+(* buffers_fit: neither buf1 (the sprintf text) nor buf2 (the engineering text, before the final
+   fprintf) exceeds char buf[MAX(precision, 1) + 8] including the terminating NUL. *)
+Lemma exp_text_length : forall e, -1000 < e < 1000 -> (length (exp_text e) <= 5)%nat.
+Proof.
+  intros e H. unfold exp_text. cbn [length]. rewrite chars_length. unfold exp_digits.
+  destruct (Z.abs e <? 10); [cbn [length]; lia|]. destruct (Z.abs e <? 100); cbn [length]; lia.
+Qed.
+
+Lemma buffers_fit_lemma : forall (plus pad neg : bool) (ds : list nat) (ex : Z),
+  ds <> [] -> -990 <= ex <= 990 ->
+  (length (print_core plus pad neg ds ex) + 1 <= buffer_size (length ds))%nat /\
+  (sprintf_e_length neg (length ds) ex + 1 <= buffer_size (length ds))%nat.
+Proof.
+  intros plus pad neg ds ex Hne Hex.
+  set (p := length ds).
+  assert (Hp : (1 <= p)%nat) by (unfold p; destruct ds; [congruence|cbn [length]; lia]).
+  destruct (before_range p ex Hp) as (Hb03 & Hbp & Hb3 & Hb1).
+  split.
+  - unfold print_core. fold p. set (b := Z.to_nat (before p ex)).
+    assert (Hbn : (b <= p)%nat) by (unfold b; lia).
+    rewrite !app_length, !chars_length. rewrite firstn_length_le by (fold p; exact Hbn).
+    assert (H1 : (length (if plus || neg then [if neg then "-"%char else "+"%char] else []) <= 1)%nat)
+      by (destruct (plus || neg); cbn [length]; lia).
+    assert (H2 : (length (if Nat.ltb 0 (p - b) || (ex - (before p ex - 1) =? 0)
+                          then "."%char :: chars (firstn (p - b) (skipn b ds)) else []) <= 1 + (p - b))%nat).
+    { destruct (Nat.ltb 0 (p - b) || (ex - (before p ex - 1) =? 0)); cbn [length]; [|lia].
+      rewrite chars_length, firstn_length. lia. }
+    assert (H3 : (length (if negb (ex - (before p ex - 1) =? 0) then exp_text (ex - (before p ex - 1))
+                          else if pad then spaces 4 else []) <= 5)%nat).
+    { destruct (ex - (before p ex - 1) =? 0); cbn [negb]; cbv iota.
+      - destruct pad; cbn [spaces repeat length]; lia.
+      - apply exp_text_length. lia. }
+    unfold buffer_size. lia.
+  - unfold sprintf_e_length, buffer_size. fold p.
+    destruct neg; destruct (Nat.eqb p 1) eqn:E; destruct (Z.abs ex <? 100)%Z; try apply Nat.eqb_eq in E; lia.
+Qed.
+
+(* non-vacuity and concrete instances *)
+Example eng_value_example :
+  print_value true true true [5;3;0;7;8;4]%nat (-1) =
+    ["-";"5";"3";"0";".";"7";"8";"4";"e";"-";"0";"3"]%char /\
+  parse_decimal (print_value true true true [5;3;0;7;8;4]%nat (-1)) =
+    Some ({| d_neg := true; d_mant := 530784; d_exp10 := -6 |}, []).
+Proof. split; reflexivity. Qed.
